@@ -281,7 +281,8 @@ PROPS["C17"] = {
     "theorems": ["C17_utf8_window_decodes", "C17_char_suffix_is_continuation", "C17_strict_ok", "C17_test_only_agrees", "C17_automaton_facts",
                  "C17_utf8_helper_never_out_of_fuel", "C17_single_byte_helper_never_out_of_fuel",
                  "C17_every_scalar_value_encodes_to_a_character", "C17_utf8_round_trip", "C17_utf16_round_trip",
-                 "C17_modelled_codecs_one_char_per_byte_at_most", "C17_single_byte_closed_form_is_the_helper"],
+                 "C17_modelled_codecs_one_char_per_byte_at_most", "C17_single_byte_closed_form_is_the_helper",
+                 "C17_utf16_helper_never_out_of_fuel"],
     "model_targets": ["Model/Decode.vo"],
     "runs": [{"level": "decode", "args_quick": ["--n", "1500"], "args_thorough": ["--n", "60000"]}],
     "search": {"level": "decode", "args": ["--n", "12000"]},
